@@ -75,6 +75,10 @@ Theorem C13_shift_skipChilds : forall c k s f, s = false -> snd (sk_run c s (map
 Proof. intros c k s f H. exact (walk_shift _ _ sk_local shift_decl sk_equivariant k s f H). Qed.
 Print Assumptions C13_shift_skipChilds.
 
+Theorem C13_typeUnparen_walker_local_equivariant : decl_local skt_on_decl (fun fl => fl = false) /\ equivariant skt_on_decl shift_decl.
+Proof. exact (conj skt_local skt_equivariant). Qed.
+Print Assumptions C13_typeUnparen_walker_local_equivariant.
+
 (* typeDefFirst is exempt from the per-declaration laws (next theorem), yet a UNIFORM shift of the whole file only shifts its diagnostics *)
 Theorem C13_shift_typeDefFirst_whole_file : forall k c s f, snd (tdf_run c s (map (shift_decl k) f)) = map (shift_w k) (snd (tdf_run c s f)).
 Proof. exact tdf_shift. Qed.
